@@ -13,7 +13,7 @@
 package main
 
 import (
-		"encoding/json"
+	"encoding/json"
 	"fmt"
 	"os"
 	"path/filepath"
